@@ -1,0 +1,124 @@
+//go:build verif
+
+package verifapi
+
+import (
+	"fmt"
+
+	"github.com/iwpnd/sectr"
+	"github.com/mmcloughlin/geohash"
+	"github.com/tidwall/geojson"
+	"github.com/tidwall/geojson/geometry"
+	"github.com/tidwall/tile38/internal/bing"
+	"github.com/tidwall/tile38/internal/clip"
+	"github.com/tidwall/tile38/internal/server"
+)
+
+// Hooks of the query-area check (C02): the search-side and the TEST-side area
+// parsers on a private Server value (AreaEnv), a canonical description of what
+// they build, and — independent of both parsers — the library calls an area
+// constructor term of the model stands for (AreaBuild*), used to compute the
+// object a parser is expected to have built.
+
+type AreaEnv = server.VerifAreaEnv
+type SearchAreaResult = server.VerifSearchAreaResult
+type AreaObj = geojson.Object
+
+// NewAreaEnv returns a Server value with default parse / index options and an
+// empty keyspace.
+func NewAreaEnv() *AreaEnv { return server.VerifNewAreaEnv() }
+
+// AreaDescribe: "nil", "rect:…", "circle:…", "point:…" with IEEE bit patterns,
+// "json:" + JSON otherwise.
+func AreaDescribe(o AreaObj) string { return server.VerifAreaDescribe(o) }
+
+func AreaBuildPoint(lat, lon float64) AreaObj {
+	return geojson.NewPoint(geometry.Point{X: lon, Y: lat})
+}
+
+func AreaBuildCircle(lat, lon, meters float64) AreaObj {
+	return geojson.NewCircle(geometry.Point{X: lon, Y: lat}, meters, 64)
+}
+
+func AreaBuildBounds(minLat, minLon, maxLat, maxLon float64) AreaObj {
+	return geojson.NewRect(geometry.Rect{
+		Min: geometry.Point{X: minLon, Y: minLat},
+		Max: geometry.Point{X: maxLon, Y: maxLat},
+	})
+}
+
+func AreaBuildHash(h string) AreaObj {
+	box := geohash.BoundingBox(h)
+	return AreaBuildBounds(box.MinLat, box.MinLng, box.MaxLat, box.MaxLng)
+}
+
+func AreaBuildTile(x, y int64, z uint64) AreaObj {
+	minLat, minLon, maxLat, maxLon := bing.TileXYToBounds(x, y, z)
+	return AreaBuildBounds(minLat, minLon, maxLat, maxLon)
+}
+
+// AreaBuildMvt: the tile rectangle grown by 6.25 % of its height / width on
+// every side (each side computed from the already moved opposite side, as the
+// search side does), clamped to the Mercator limits.
+func AreaBuildMvt(x, y int64, z uint64) AreaObj {
+	minLat, minLon, maxLat, maxLon := bing.TileXYToBounds(x, y, z)
+	minLat -= (maxLat - minLat) * 0.0625
+	maxLat += (maxLat - minLat) * 0.0625
+	minLon -= (maxLon - minLon) * 0.0625
+	maxLon += (maxLon - minLon) * 0.0625
+	if minLat < bing.MinLatitude {
+		minLat = bing.MinLatitude
+	}
+	if maxLat > bing.MaxLatitude {
+		maxLat = bing.MaxLatitude
+	}
+	if minLon < bing.MinLongitude {
+		minLon = bing.MinLongitude
+	}
+	if maxLon > bing.MaxLongitude {
+		maxLon = bing.MaxLongitude
+	}
+	return AreaBuildBounds(minLat, minLon, maxLat, maxLon)
+}
+
+// AreaBuildSector must only be called with finite, different bearings.
+func AreaBuildSector(e *AreaEnv, lat, lon, meters, b1, b2 float64) (AreaObj, bool) {
+	sector := sectr.NewSector(sectr.Point{Lng: lon, Lat: lat}, meters, b1, b2)
+	o, err := geojson.Parse(string(sector.JSON()), e.ParseOpts())
+	return o, err == nil
+}
+
+func AreaBuildObject(e *AreaEnv, json string) (AreaObj, bool) {
+	o, err := geojson.Parse(json, e.ParseOpts())
+	return o, err == nil
+}
+
+func AreaBuildClip(e *AreaEnv, a, c AreaObj) AreaObj { return clip.Clip(a, c, e.IndexOpts()) }
+
+// BingQuadKeyToTileXY is bing.QuadKeyToTileXY; panicText is what it panicked with.
+func BingQuadKeyToTileXY(k string) (x, y int64, z uint64, panicText string) {
+	defer func() {
+		if r := recover(); r != nil {
+			panicText = fmt.Sprint(r)
+		}
+	}()
+	x, y, z = bing.QuadKeyToTileXY(k)
+	return
+}
+
+// BingTileXYToQuadKey is bing.TileXYToQuadKey (levels up to 64 only).
+func BingTileXYToQuadKey(x, y int64, z uint64) string { return bing.TileXYToQuadKey(x, y, z) }
+
+// BingQuadKeyToBounds: ok = err == nil; panicText is what it panicked with.
+func BingQuadKeyToBounds(k string) (o AreaObj, ok bool, panicText string) {
+	defer func() {
+		if r := recover(); r != nil {
+			o, ok, panicText = nil, false, fmt.Sprint(r)
+		}
+	}()
+	minLat, minLon, maxLat, maxLon, err := bing.QuadKeyToBounds(k)
+	if err != nil {
+		return nil, false, ""
+	}
+	return AreaBuildBounds(minLat, minLon, maxLat, maxLon), true, ""
+}
